@@ -72,10 +72,10 @@ _built = {}
 
 
 def cargo_build(flavour, profile="debug", package="mon", extra_rustflags="", toolchain=None, extra_args=None,
-                target_subdir=None, env_extra=None):
+                target_subdir=None, env_extra=None, binname=None, features=None):
     """Build `package` of the harness workspace for a flavour/profile from /repo's current
     working tree with the hook cfg on. Returns the path of the binary."""
-    key = (flavour, profile, package, extra_rustflags, toolchain, tuple(extra_args or []))
+    key = (flavour, profile, package, extra_rustflags, toolchain, tuple(extra_args or []), tuple(features or []))
     with _build_lock:
         if key in _built:
             return _built[key]
@@ -86,7 +86,7 @@ def cargo_build(flavour, profile="debug", package="mon", extra_rustflags="", too
     cmd += ["build", "--offline", "-p", package, "--target-dir", tdir]
     if profile == "release":
         cmd.append("--release")
-    cmd += FLAVOURS.get(flavour, [])
+    cmd += (FLAVOURS.get(flavour, []) if features is None else list(features))
     cmd += list(extra_args or [])
     env = env_base()
     env["RUSTFLAGS"] = ("--cfg %s %s" % (GUARD, extra_rustflags)).strip()
@@ -100,7 +100,7 @@ def cargo_build(flavour, profile="debug", package="mon", extra_rustflags="", too
     triple = None
     if extra_args and "--target" in extra_args:
         triple = extra_args[extra_args.index("--target") + 1]
-    path = os.path.join(tdir, triple, sub, package) if triple else os.path.join(tdir, sub, package)
+    path = os.path.join(tdir, triple, sub, binname or package) if triple else os.path.join(tdir, sub, binname or package)
     if not os.path.exists(path):
         raise HarnessError("built binary missing: " + path)
     with _build_lock:
